@@ -16,6 +16,7 @@ in the evidence notes.
 """
 import copy
 import inspect
+import math
 import os
 import time
 
@@ -29,6 +30,7 @@ STATS = {"callables-wrapped": 0}
 SHADOWED = set()
 DIR = None
 OPTION_PROBE = False
+ZERO_D = []
 PER_KEY = int(os.environ.get("VERIF_FORMS_PER_KEY", "2"))
 MAX_ELEMS = 6000
 SLOW = float(os.environ.get("VERIF_FORMS_SLOW", "0.05"))
@@ -92,14 +94,30 @@ DATA_KEYWORDS = {"acc", "gyr", "mag", "q0", "q", "dcm", "DCM", "rpy", "angles", 
 def _kind(a):
     if type(a) is np.ndarray and a.dtype.kind in "fi" and 1 <= a.size <= MAX_ELEMS:
         return "vec" if a.ndim == 1 else "mat"
+    if type(a) is float and math.isfinite(a):
+        return "num"
     if type(a) is str and a.isalpha() and 1 <= len(a) <= 14 and (a.lower() != a or a.upper() != a):
         return "str"
     return None
 
 
+class NotThisValue(Exception):
+    """the form does not exist for this value (a non-integral number has no int form)"""
+
+
 def _reform(a, form):
-    if form in ("ndarray", "as-given"):
+    if form in ("ndarray", "as-given", "float"):
         return a
+    if form == "np.float64":
+        return np.float64(a)
+    if form == "0-d":
+        z = np.array(a)
+        ZERO_D.append((z, float(a)))
+        return z
+    if form == "int":
+        if a != int(a) or abs(a) > 2 ** 40:
+            raise NotThisValue()
+        return int(a)
     if form == "list":
         return a.tolist()
     if form == "tuple":
@@ -195,7 +213,7 @@ def _snap(o):
 
 
 def _describe(kinds, fv):
-    return ",".join("%s:%s" % (k, f) for k, f in zip(kinds, fv) if f not in ("ndarray", "as-given"))
+    return ",".join("%s:%s" % (k, f) for k, f in zip(kinds, fv) if f not in ("ndarray", "as-given", "float"))
 
 
 def _shadow(name, orig, mode, args, kwargs):
@@ -318,7 +336,7 @@ def _shadow(name, orig, mode, args, kwargs):
             def same(x, y, exact):
                 return all((p is None and q is None) or (p is not None and q is not None and _same(p, q, exact)) for p, q in zip(x, y))
             try:
-                ctl = again(tuple("ndarray" if k != "str" else "as-given" for k in kinds))
+                ctl = again(tuple({"str": "as-given", "num": "float"}.get(k, "ndarray") for k in kinds))
                 ok = same(ctl, base, True)
             except Exception:
                 ok = False
@@ -334,10 +352,19 @@ def _shadow(name, orig, mode, args, kwargs):
             for fv in TABLE.get(kinds, ()):
                 if "readonly" in fv and PROP != "C19":
                     continue
-                if PROP == "C19" and "readonly" not in fv:
+                if PROP == "C19" and "readonly" not in fv and "0-d" not in fv:
                     continue
                 try:
+                    ZERO_D[:] = []
                     got = again(fv)
+                    if PROP == "C19" and "0-d" in fv:
+                        # a 0-d array is an array: the call must leave it as it was
+                        if any(float(z) != v0 for z, v0 in ZERO_D):
+                            _emit("finding", ("%s|forms|%s|%s|changes-a-0-d-array-argument" % (PROP, name, _describe(kinds, fv)),
+                                              {"callable": name, "forms": _describe(kinds, fv), "before-after": [(v0, float(z)) for z, v0 in ZERO_D]}))
+                        continue
+                except NotThisValue:
+                    continue
                 except Exception as e:
                     if "readonly" in fv and ("read-only" in str(e) or "readonly" in str(e)):
                         _emit("finding", ("%s|forms|%s|%s|writes-through-a-read-only-argument" % (PROP, name, _describe(kinds, fv)),
